@@ -41,7 +41,7 @@ def ds_op(ctx, struct, op, dim, args=None, attrs_kept=True):
     n = SIZES[dim]
     L = st['labels'][dim]
     # symbolic arguments
-    if op in ('take-scalar', 'loc-scalar', 'sel-scalar', 'take-axisname', 'take-dict'):
+    if op in ('take-scalar', 'loc-scalar', 'sel-scalar', 'take-axisname', 'take-dict', 'take-keepdims', 'take-keepdims-axis'):
         q = ctx.label(kind, 'q')
         present = find(L, q) is not None
         idx = q
@@ -49,7 +49,7 @@ def ds_op(ctx, struct, op, dim, args=None, attrs_kept=True):
         qs = [ctx.label(kind, 'q%d' % j) for j in range(2)]
         present = all(find(L, q) is not None for q in qs)
         idx = list(qs)
-    elif op in ('ix-scalar', 'isel-scalar'):
+    elif op in ('ix-scalar', 'isel-scalar', 'ix-keepdims'):
         idx = ctx.choice('p', n)
         present = True
     elif op in ('ix-list',):
@@ -91,6 +91,12 @@ def ds_op(ctx, struct, op, dim, args=None, attrs_kept=True):
             return ds.take(indices=tuple(t))
         if op == 'take-dict':
             return ds.take(indices={dim: idx})
+        if op == 'take-keepdims':
+            return ds.take(indices={dim: idx}, keepdims=True)
+        if op == 'take-keepdims-axis':
+            return ds.take(indices=idx, axis=dim, keepdims=True)
+        if op == 'ix-keepdims':
+            return ds.take(indices={dim: idx}, indexing='position', keepdims=True)
         if op == 'take-axisname':
             return ds.take(indices=idx, axis=dim)
         if op in ('loc-scalar', 'loc-list'):
@@ -124,6 +130,10 @@ def ds_op(ctx, struct, op, dim, args=None, attrs_kept=True):
     def varf(v):
         if op in ('take-scalar', 'take-list', 'take-dict', 'take-axisname', 'loc-scalar', 'loc-list', 'sel-scalar'):
             return v.take(idx, axis=dim)
+        if op in ('take-keepdims', 'take-keepdims-axis'):
+            return v.take(idx, axis=dim, keepdims=True)
+        if op == 'ix-keepdims':
+            return v.take(idx, axis=dim, indexing='position', keepdims=True)
         if op in ('ix-scalar', 'ix-list', 'isel-scalar'):
             return v.take(idx, axis=dim, indexing='position')
         if op in ('mean', 'std', 'var', 'median', 'sum'):
@@ -279,7 +289,7 @@ def templates():
     structs = ['a_x', 'a_xy', 'a_x-b_yx', 'a_xy-b_y-c_0', 'a_y-b_xz', 'a_xyz-b_zy-c_x']
     ops = ['take-scalar', 'take-list', 'take-dict', 'take-axisname', 'loc-scalar', 'loc-list', 'sel-scalar', 'ix-scalar', 'ix-list', 'isel-scalar',
            'mean', 'std', 'var', 'median', 'sum', 'take_axis', 'take_axis_pos', 'sort_axis', 'reindex_axis', 'interp_axis',
-           'mean-pos', 'sum-pos', 'median-pos', 'mean-default', 'sum-default', 'reindex_axis-axisobj']
+           'mean-pos', 'sum-pos', 'median-pos', 'mean-default', 'sum-default', 'reindex_axis-axisobj', 'take-keepdims', 'take-keepdims-axis', 'ix-keepdims']
     for sname in structs:
         dims = []
         for _, ds_ in STRUCTS[sname]:
